@@ -7,6 +7,10 @@ use tracing::debug;
 
 use super::*;
 
+/// The cost of a node that the executor can not run: a subquery or an apply that has not been
+/// rewritten to a join (yet). Large, but finite so that its products with row counts stay finite.
+const UNEXECUTABLE: f32 = 1e20;
+
 /// The main cost function.
 pub struct CostFn<'a> {
     pub egraph: &'a EGraph,
@@ -20,7 +24,22 @@ impl egg::CostFunction<Expr> for CostFn<'_> {
     {
         use Expr::*;
         let id = &self.egraph.lookup(enode.clone()).unwrap();
-        let mut costs = |i: &Id| costs(*i);
+        // An unexecutable expression makes the plan node that evaluates it unexecutable, even if the
+        // node processes no rows (the cost of an expression is multiplied by the number of rows).
+        let mut unexecutable = false;
+        let mut costs = |i: &Id| {
+            let c = costs(*i);
+            unexecutable |= c >= UNEXECUTABLE;
+            c
+        };
+        let is_subquery = |i: &Id| {
+            let nodes = &self.egraph[*i].nodes;
+            !nodes.iter().any(|e| matches!(e, List(_)))
+        };
+        let is_scalar_subquery = |i: &Id| {
+            let nodes = &self.egraph[*i].nodes;
+            nodes.iter().any(|e| matches!(e, Max1Row(_)))
+        };
         let rows = |i: &Id| self.egraph[*i].data.rows;
         let cols = |i: &Id| self.egraph[*i].data.schema.len() as f32;
         let nlogn = |x: f32| x * (x + 1.0).log2();
@@ -65,16 +84,26 @@ impl egg::CostFunction<Expr> for CostFn<'_> {
                     + costs(l)
                     + costs(r)
             }
-            Apply([_, l, r]) => build() + costs(l) + rows(l) * costs(r),
+            Apply([_, l, r]) => UNEXECUTABLE + build() + costs(l) + rows(l) * costs(r),
             Insert([_, _, c]) | CopyTo([_, c]) => rows(c) * cols(c) + costs(c),
             Empty(_) => 0.0,
             Max1Row(c) => costs(c),
             // expressions
             Column(_) | Ref(_) => 0.01, // column reference is almost free
+            List(list) if list.iter().any(is_scalar_subquery) => {
+                enode.fold(UNEXECUTABLE, |sum, id| sum + costs(&id))
+            }
             List(_) => enode.fold(0.01, |sum, id| sum + costs(&id)), // list is almost free
+            // subqueries inside expressions
+            Exists(c) => UNEXECUTABLE + costs(c),
+            In([a, b]) if is_subquery(b) => UNEXECUTABLE + costs(a) + costs(b),
+            _ if enode.children().iter().any(is_scalar_subquery) => {
+                enode.fold(UNEXECUTABLE, |sum, id| sum + costs(&id))
+            }
             // each operator has a cost of 0.1
             _ => enode.fold(0.1, |sum, id| sum + costs(&id)),
         };
+        let c = if unexecutable { c.max(UNEXECUTABLE) } else { c };
         debug!(
             "{id}\t{enode:?}\tcost={c}, rows={}, cols={}",
             rows(id),
